@@ -86,6 +86,7 @@ type Desc struct {
 	Table  string   `json:"table"`
 	Tree   []*Node  `json:"-"`
 	Fields []*FDesc `json:"fields"`
+	Extra  []*FDesc `json:"extra"` // leaves of the Go struct that gorm mapped to no column of their own
 	Prio   string   `json:"prio"` // column of the prioritized primary field ("" = none)
 	PrioHasDef bool `json:"prio_hasdef"`
 	DBNames [][]string `json:"-"` // observed: [dbname, bind path...]
@@ -147,6 +148,29 @@ func descOf(name string) *Desc {
 		}
 		d.Fields = append(d.Fields, fd)
 	}
+	// every leaf of the Go struct (walked by this harness, not by gorm) must own a column: leaves
+	// whose bind path is not the winner of any column are kept apart and compared by value
+	var walk func(t reflect.Type, nodes []*Node, path []string, embptr bool)
+	walk = func(t reflect.Type, nodes []*Node, path []string, embptr bool) {
+		for _, n := range nodes {
+			sf, _ := t.FieldByName(n.Name)
+			p := append(append([]string{}, path...), n.Name)
+			if n.Embed {
+				ft := sf.Type
+				if ft.Kind() == reflect.Ptr {
+					ft = ft.Elem()
+				}
+				walk(ft, n.Kids, p, embptr || n.Ptr)
+				continue
+			}
+			if d.byPath(strings.Join(p, ".")) != nil {
+				continue
+			}
+			ser := tagSettings(sf.Tag)["SERIALIZER"]
+			d.Extra = append(d.Extra, &FDesc{Path: p, Col: "", Kind: kindOfType(sf.Type, ser), EmbPtr: embptr, goType: sf.Type})
+		}
+	}
+	walk(t, d.Tree, nil, false)
 	descCache[name] = d
 	return d
 }
@@ -200,6 +224,32 @@ func (d *Desc) canonRec(rec reflect.Value) []Val {
 		out[i] = canon(f.Kind, v)
 	}
 	return out
+}
+
+// canonExtra / buildExtra: the same for the unmapped leaves.
+func (d *Desc) canonExtra(rec reflect.Value) []Val {
+	rec = reflect.Indirect(rec)
+	out := make([]Val, len(d.Extra))
+	for i, f := range d.Extra {
+		v, ok := fieldValue(rec, f.Path, false)
+		if !ok {
+			out[i] = vAbsent
+			continue
+		}
+		out[i] = canon(f.Kind, v)
+	}
+	return out
+}
+func (d *Desc) buildExtra(rec reflect.Value, vals []Val) {
+	rec = reflect.Indirect(rec)
+	for i, f := range d.Extra {
+		if i >= len(vals) || vals[i].T == "absent" {
+			continue
+		}
+		if v, ok := fieldValue(rec, f.Path, false); ok {
+			v.Set(build(f.Kind, vals[i], f.goType))
+		}
+	}
 }
 
 // buildRec fills a struct value from canonical values.
